@@ -227,7 +227,8 @@ pub fn trace_state(b: &BoardState, t: &DrawTable) {
 /// H6, schedule exploration: WALLEYE_VERIF_SCHED="accept=15,answer=40" makes the thread that reaches
 /// the named point sleep that many milliseconds (points: `start` = search thread entered,
 /// `accept` = root improvement accepted by the clock check but not yet handed over,
-/// `answer` = polling loop left, go not yet answered).  Without the variable: nothing.
+/// `poll` = before every poll of the channel, `answer` = polling loop left, go not yet answered).
+/// Without the variable: nothing.
 pub fn sched_point(name: &str) {
     if let Ok(spec) = std::env::var("WALLEYE_VERIF_SCHED") {
         for item in spec.split(',') {
